@@ -425,16 +425,121 @@ def build_core(repo, external=(), canary=None, with_witness=True):
     return b
 
 
+PARSER_HEADER = (
+    "// GENERATED by /verif/weave on every run from /repo's working tree -- do not edit.\n"
+    "#![allow(unused_imports, dead_code, unused_variables, non_snake_case, unused_mut, unused_parens, unused_braces)]\n"
+    "use vstd::prelude::*;\nuse std::rc::Rc;\n"
+    "verus! {\n"
+)
+
+PARSER_CLONE_IMPLS = """// R1: derived Clone replaced by an assumed specification (Rust's derive semantics).
+impl<'a> Clone for Term<'a> {
+    #[verifier::external_body]
+    fn clone(&self) -> (r: Self) ensures r == *self { unimplemented!() }
+}
+"""
+
+
+def expr_closure_contract(w, regex, head, nth=1):
+    """`.map(|x| EXPR)` on one line -> `.map(HEAD { EXPR })`; for rustfmt's two-line form
+    `.map(|x| {` / `EXPR` / `}),` the header alone is replaced."""
+    i = w.find(regex, nth)
+    l = w.lines[i]
+    m = re.match(r"^(\s*\.map\()\|\w+\| (.*)\)(,?)$", l)
+    if m and not m.group(2).rstrip().endswith("{"):
+        w.lines[i] = m.group(1) + head.strip() + " { " + m.group(2) + " })" + m.group(3)
+    else:
+        m = re.match(r"^(.*\.map\()\|\w+\| \{$", l)
+        if not m:
+            raise LostAnchor(f"{w._where(i)}: closure shape not as expected")
+        w.lines[i] = m.group(1) + head.strip() + " {"
+    w.log["annotations"].append({"fn": w.name, "kind": "closure-contract", "anchor": regex, "nth": nth})
+
+
+def weave_reassoc(w, sc, key):
+    w.contract(sc[key + ".contract"], ret="r")
+    w.body_first(sc[key + ".first"])
+    expr_closure_contract(w, r"\.map\(\|domain\| ", sc[key + ".closure.lambda"])
+    expr_closure_contract(w, r"\.map\(\|annotation\| ", sc[key + ".closure.let"])
+    w.before(r"^    if let Some\(.*\) = acc \{$", sc[key + ".bottom"])
+    for n in range(1, w.count(r"^\s*let left = Term \{$") + 1):
+        w.after(r"^\s*let left = Term \{$", sc[key + ".left.post"], nth=n)
+
+
+def build_parser(repo, external=(), canary=None, with_witness=True):
+    b = Build("parser")
+    log = b.log
+    sc = sections(os.path.join(VERIF, "contracts/u4.vrs"))
+    if canary:
+        sc = dict(sc)
+        key = {"reassociate_applications": "apps", "reassociate_products_and_quotients": "muls", "reassociate_sums_and_differences": "adds"}[canary[0]]
+        sc[key + ".contract"] = sc[canary[1]]
+    parser_rs = Source(repo, "src/parser.rs")
+    error_rs = Source(repo, "src/error.rs")
+    b.add(PARSER_HEADER)
+    b.add(read("spec/parser_prelude.rs"))
+    sr = Woven(error_rs, "struct", "SourceRange", log)
+    if sr.attrs != ["#[derive(Clone, Copy, Debug)]"]:
+        raise LostAnchor(f"src/error.rs struct SourceRange: expected #[derive(Clone, Copy, Debug)], found {sr.attrs}")
+    b.add("#[derive(Clone, Copy)]\n" + sr.text())
+    sv = Woven(parser_rs, "struct", "SourceVariable", log)
+    if sv.attrs != ["#[derive(Clone, Copy, Debug)]"]:
+        raise LostAnchor(f"src/parser.rs struct SourceVariable: unexpected attributes {sv.attrs}")
+    b.add("#[derive(Clone, Copy)]\n" + sv.text())
+    t = Woven(parser_rs, "struct", "Term", log)
+    v = Woven(parser_rs, "enum", "Variant", log)
+    for w in (t, v):
+        if w.attrs != ["#[derive(Clone)]"]:
+            raise LostAnchor(f"src/parser.rs {w.kind} {w.name}: expected #[derive(Clone)], found {w.attrs}")
+    log["rewrites"].append({"rule": "R1-derive-clone", "site": "src/parser.rs struct Term", "before": "#[derive(Clone)]", "after": "(assumed Clone impl: r == *self)", "note": "Verus gives a derived non-Copy Clone no specification"})
+    log["dropped"].append({"site": "src/parser.rs enum Variant", "text": "#[derive(Clone)]", "why": "Variant::clone is not called by the functions under contract"})
+    b.add(t.text())
+    b.add(v.text())
+    b.add(PARSER_CLONE_IMPLS)
+    for name in ("ProductOrQuotient", "SumOrDifference"):
+        e = Woven(parser_rs, "enum", name, log)
+        if e.attrs != ["#[derive(Eq, Ord, PartialEq, PartialOrd)]"]:
+            raise LostAnchor(f"src/parser.rs enum {name}: unexpected attributes {e.attrs}")
+        log["dropped"].append({"site": f"src/parser.rs enum {name}", "text": e.attrs[0], "why": "comparison impls are not used by the functions under contract (only `match`)"})
+        b.add(e.text())
+    b.add(read("spec/parser_spec.rs"))
+
+    sp = Woven(parser_rs, "fn", "span", log)
+    sp.contract(sc["span.contract"], ret="r")
+    ra = Woven(parser_rs, "fn", "reassociate_applications", log)
+    strip_clippy(ra)
+    weave_reassoc(ra, sc, "apps")
+    # the other two passes use the same hints with the class substituted
+    for key, cls in (("muls", "Class::Muls"), ("adds", "Class::Adds")):
+        for sec in ("first", "closure.lambda", "closure.let", "left.post"):
+            sc.setdefault(f"{key}.{sec}", sc[f"apps.{sec}"].replace("Class::Apps", cls))
+    rm = Woven(parser_rs, "fn", "reassociate_products_and_quotients", log)
+    strip_clippy(rm)
+    weave_reassoc(rm, sc, "muls")
+    rs = Woven(parser_rs, "fn", "reassociate_sums_and_differences", log)
+    strip_clippy(rs)
+    weave_reassoc(rs, sc, "adds")
+    for f in (sp, ra, rm, rs):
+        b.add_fn(f, external=f.name in external)
+    if with_witness:
+        b.add(read("spec/parser_witness.rs"))
+    b.add("} // verus!\nfn main() {}\n")
+    return b
+
+
 def canaries(unit):
     """fn -> sidecar section holding a deliberately wrong contract (must-fail vacuity guard)."""
     if unit == "core":
         return {fn: fn + ".canary" for fn in ("signed_shift", "unsigned_shift", "open", "free_variables", "is_value", "step")}
+    if unit == "parser":
+        return {fn: fn + ".canary" for fn in ("reassociate_applications", "reassociate_products_and_quotients", "reassociate_sums_and_differences")}
     return {}
 
 
 if __name__ == "__main__":
     import sys, json
-    b = build_core(sys.argv[1] if len(sys.argv) > 1 else "/repo")
+    which = sys.argv[3] if len(sys.argv) > 3 else "core"
+    b = {"core": build_core, "parser": build_parser}[which](sys.argv[1] if len(sys.argv) > 1 else "/repo")
     dst = sys.argv[2] if len(sys.argv) > 2 else "/var/tmp/gv/core.rs"
     with open(dst, "w") as f:
         f.write(b.text())
